@@ -514,6 +514,9 @@ RULES = {
     "R7": Rule("R7", "&mut V[range] -> &mut V.as_mut_slice()[range] (V: Vec<T>)",
                "& mut self . data [ $$r ]",
                "& mut self . data . as_mut_slice ( ) [ $$r ]", guard=_has_range),
+    "R7o": Rule("R7o", "&mut other.data[range] -> &mut other.data.as_mut_slice()[range] (Vec<T>)",
+                "& mut other . data [ $$r ]",
+                "& mut other . data . as_mut_slice ( ) [ $$r ]", guard=_has_range),
     # ref-literal pattern
     "R2": Rule("R2", "if let Some(&LIT) = E { S } -> if let Some(p__) = E { if *p__ == LIT { S } }",
                "if let Some ( & $lit ) = $$e { $$s }",
@@ -534,10 +537,42 @@ RULES = {
     "R11b": Rule("R11b", "panic!(..) -> __panic()", "panic ! ( $$m )", "__panic ( )"),
     "R11c": Rule("R11c", "assert_eq!(A, B, ..) -> __assert(A == B)", "assert_eq ! ( $$a , $$b )", "__assert ( $$a == $$b )"),
     "R11d": Rule("R11d", "unreachable!() -> __unreachable()", "unreachable ! ( $$m )", "__unreachable ( )"),
+    # std idioms over closures that this vstd cannot specify (default methods of Iterator): replaced by
+    # helper functions whose contracts state the std semantics of the whole expression (prelude/std_specs.rs)
+    "R12a": Rule("R12a", "V.iter().rposition(|&d| d != 0).map_or(0, |i| i + 1) -> __rpos_nz_len(&V)",
+                 "$$v . iter ( ) . rposition ( | & $d | $d != 0 ) . map_or ( 0 , | $i | $i + 1 )",
+                 "__rpos_nz_len ( & $$v )", guard=lambda e: e["$$v"] and all(t not in (";", "=", "{", "}", ",") for t in e["$$v"])),
+    "R12b": Rule("R12b", "V.iter().position(|&d| d != 0) -> __pos_nz(&V)",
+                 "$$v . iter ( ) . position ( | & $d | $d != 0 )",
+                 "__pos_nz ( & $$v )", guard=lambda e: e["$$v"] and all(t not in (";", "=", "{", "}", ",") for t in e["$$v"])),
     "R4b": Rule("R4b", "for (a, &b) in I { S } -> for (a, b_r__) in I { let b = *b_r__; S }",
                 "for ( $a , & $b ) in $$i { $$s }",
                 "for ( $a , b_r__ ) in $$i { let $b = * b_r__ ; $$s }"),
 }
+
+
+def apply_mut_self(ss, log, where):
+    """R5: `fn f(mut self, ..) { S }` -> `fn f(self, ..) { let mut self__ = self; S[self := self__] }`"""
+    for i in range(len(ss) - 2):
+        if ss[i] == "(" and ss[i + 1] == "mut" and ss[i + 2] == "self":
+            break
+    else:
+        return ss
+    out = ss[:i + 1] + ss[i + 2:]
+    # body: first `{` at paren depth 0 after the parameter list
+    depth = 0
+    k = i
+    while k < len(out):
+        if out[k] in ("(", "["):
+            depth += 1
+        elif out[k] in (")", "]"):
+            depth -= 1
+        elif out[k] == "{" and depth == 0:
+            break
+        k += 1
+    body = ["self__" if t == "self" else t for t in out[k + 1:]]
+    log.append({"rule": "R5", "function": where, "from": "mut self", "to": "self; let mut self__ = self; (body uses self__)"})
+    return out[:k + 1] + ["let", "mut", "self__", "=", "self", ";"] + body
 
 
 def apply_cfg_rule(ss, log, where):
